@@ -332,7 +332,8 @@ let run_conv (id : string) (lv : sexp) (fields : sexp list) =
   let chain = chain_okb l in
   let tree = tree_okb l in
   Printf.printf "%s\tCONV\t%s\t%s\t%s\n" id v (string_of_outcome (run_inner feat (fun _ -> None) (compile_options l) None argv))
-    (if flat then "flat_ok" else if chain then "chain_ok" else if tree then "tree_ok" else "-")
+    (if flat then "flat_ok" else if chain && tree && plain_cmds l then "chain_ok+" else if chain then "chain_ok"
+     else if tree && plain_cmds l then "tree_ok+" else if tree then "tree_ok" else "-")
 
 (* ------------------------------------------------------------------ derive rules (C17) *)
 let opt_hex = function A "-" -> None | h -> Some (hx h)
